@@ -145,7 +145,7 @@ def correspondence(ctx):
     dis = []
     for st, d in par.pmap(_corr_chunk, [(ctx.seed * 83 + j, n) for j in range(ctx.jobs)], ctx.jobs):
         for k in st:
-            tot[k] += st[k]
+            tot[k] = tot.get(k, 0) + st[k]
         dis += d
     r = random.Random(ctx.seed)
     tot = {"operator_strings": tot, "sample": {"string": text_of(gen_string(r, BODY_UN, BODY_BIN, NFOLD, 4))}}
